@@ -219,7 +219,7 @@ theorem expNegEncl_sound (P n k : ℕ) (xlo xhi : ℚ) (x : ℝ) (h0 : 0 ≤ x) 
 
 /-- **`ln2Encl` encloses ln 2** whenever it returns bounds (the certificate `exp a ≤ 2 ≤ exp b`
 is checked by the function itself) -/
-theorem ln2Encl_sound (P n : ℕ) (a b : ℚ) (h : ln2Encl P n = some (a, b)) :
+theorem ln2Encl_sound (P n m : ℕ) (a b : ℚ) (h : ln2Encl P n m = some (a, b)) :
     (a : ℝ) ≤ Real.log 2 ∧ Real.log 2 ≤ (b : ℝ) := by
   unfold ln2Encl at h
   dsimp only at h
@@ -229,10 +229,10 @@ theorem ln2Encl_sound (P n : ℕ) (a b : ℚ) (h : ln2Encl P n = some (a, b)) :
   obtain ⟨ha, hb⟩ := h
   rw [ha, hb] at hc
   obtain ⟨⟨⟨⟨⟨⟨a0, a1⟩, b0⟩, b1⟩, hn⟩, hA⟩, hB⟩ := hc
-  have sa := (expEncl01_sound a a0 a1 n hn).2
-  have sb := (expEncl01_sound b b0 b1 n hn).1
-  have hA' : ((expEncl01 a n).2 : ℝ) ≤ 2 := by exact_mod_cast hA
-  have hB' : (2 : ℝ) ≤ ((expEncl01 b n).1 : ℝ) := by exact_mod_cast hB
+  have sa := (expEncl01_sound a a0 a1 m hn).2
+  have sb := (expEncl01_sound b b0 b1 m hn).1
+  have hA' : ((expEncl01 a m).2 : ℝ) ≤ 2 := by exact_mod_cast hA
+  have hB' : (2 : ℝ) ≤ ((expEncl01 b m).1 : ℝ) := by exact_mod_cast hB
   constructor
   · exact (Real.le_log_iff_exp_le (by norm_num)).2 (sa.trans hA')
   · exact (Real.log_le_iff_le_exp (by norm_num)).2 (hB'.trans sb)
